@@ -1,5 +1,5 @@
 """C16 pairwise intersection step (partly decided)."""
-from rules import pirules
+from rules import pirules, fillrules
 
 LEVEL = 'other'
 EXPLANATION = __doc__
@@ -8,3 +8,4 @@ EXPLANATION = __doc__
 def run(ctx, rep):
     pirules.check_code(ctx, rep)
     pirules.check_endpoint_guards(ctx, rep)
+    fillrules.check_divide(ctx, rep, rules=('S-divide', 'I-private-bump'))
